@@ -541,7 +541,16 @@ class Engine(ExprEval, NumpyModel, NumpyFuncs):
     def _isinstance1(self, st, v, t, node):
         if isinstance(t, FuncRef) and t.kind == "class":
             if isinstance(v, ObjRef):
-                return self.repo.is_subclass(v.cls, t.target.name)
+                if self.repo.is_subclass(v.cls, t.target.name):
+                    return True
+                if getattr(v, "abstract", False) and self.repo.is_subclass(t.target, v.cls.name):
+                    # an interface-typed object stands for ANY subclass of its static class (built-in or user-defined): membership in a
+                    # proper subclass is not known statically -- one uninterpreted boolean per (object, class)
+                    key = f"isinst!{v.oid}!{t.target.name}"
+                    if key not in st.ghost_fns:
+                        st.ghost_fns[key] = z3.Bool(fresh_name(f"isinst_{t.target.name}"))
+                    return st.ghost_fns[key]
+                return False
             return False
         if isinstance(t, FuncRef) and t.kind == "external":
             nm = t.target
@@ -1611,6 +1620,9 @@ class Engine(ExprEval, NumpyModel, NumpyFuncs):
             else:
                 v = bound[pname]
                 scope[pname] = v
+            if ts.base in ("series", "frame") and getattr(ts.elem, "base", None) == "arr" and isinstance(v, Opaque) and isinstance(v.payload, Arr) \
+                    and len(ts.elem.dims) == v.payload.rank:
+                ts, v = ts.elem, v.payload      # shape variables of a frame / series parameter are bound to the shape of the held values
             if ts.base == "arr":
                 if ts.elem == "real" and v.kind != "real":
                     pass
